@@ -371,7 +371,126 @@ theorem sorted_shared_answer_is_page_of_the_filtered_rows (j : Nat) (v : Ver) :
   refine ⟨(v.filter (fun e => (sharedSort j).2.1 ≤ e.rank)).foldl (fun acc e => insertBy (sharedSort j).1 e acc) [], ?_, ?_⟩
   · simpa using foldl_insertBy_perm (sharedSort j).1 (v.filter (fun e => (sharedSort j).2.1 ≤ e.rank)) []
   · simp only [evalSharedSort]
+/-! ## Round 14: cursor-style readers; pools; receiver state of shared objects -/
+
+section
+variable {V Op Q A : Type} (apply : V → Op → V) (eval : Q → V → A)
+
+/-- **A read repeated inside one read transaction gives the same answer** — for every interleaving: whatever the writer
+    committed and whatever other read transactions (pinned to other versions) read in between.  This is the statement the
+    "walk a cursor, let others scan, Seek, walk again" readers exercise. -/
+theorem repeated_read_in_one_read_tx_is_stable (v0 : V) (evs : List (Ev Op Q)) :
+    let s := run apply eval (St.init v0 : St V Op Q A) evs
+    ∀ o ∈ s.log, ∀ o' ∈ s.log, o.rtx = o'.rtx → o.q = o'.q → o.a = o'.a := by
+  intro s o ho o' ho' hr hq
+  obtain ⟨_, h1⟩ := read_sees_one_version apply eval v0 evs o ho
+  obtain ⟨_, h2⟩ := read_sees_one_version apply eval v0 evs o' ho'
+  have ht := one_version_per_read_tx apply eval v0 evs o ho o' ho' hr
+  rw [h1, h2, hq, ht]
+
+end
+
+/-- on one version, the second walk of a cursor after `Seek("a<x>")` is the first walk from `x` on -/
+theorem seek_rewalk_is_suffix_of_walk (k a x : Nat) (v : Ver) :
+    evalQ (.cSeek k a x) v = (evalQ (.cWalk k a) v).filter (x ≤ ·) := rfl
+
+/-- **The re-walk of a cursor stays in its own snapshot** — store universe, every interleaving of any number of readers
+    with the writer: if a read transaction walked cursor (k, a) and later — after any commits and any scans of other read
+    transactions — repositions it with Seek and walks again, the second walk is the first walk from the seek position on. -/
+theorem rewalk_after_other_scans_sees_own_version (evs : List (Ev WOp Qry)) (k a x : Nat) :
+    let s := run applyOp evalQ (St.init [] : St Ver WOp Qry (List Nat)) evs
+    ∀ o ∈ s.log, ∀ o' ∈ s.log, o.rtx = o'.rtx → o.q = .cWalk k a → o'.q = .cSeek k a x →
+      o'.a = o.a.filter (x ≤ ·) := by
+  intro s o ho o' ho' hr hq hq'
+  obtain ⟨_, h1⟩ := read_sees_one_version applyOp evalQ [] evs o ho
+  obtain ⟨_, h2⟩ := read_sees_one_version applyOp evalQ [] evs o' ho'
+  have ht := one_version_per_read_tx applyOp evalQ [] evs o ho o' ho' hr
+  rw [h1, h2, hq, hq', ht]
+  rfl
+
+/-- the schedule of the reader scenario as an instance: reader 1 walks `name = "n10"` to its end on version 1; the writer
+    renames the row in one transaction; reader 2 (version 2) scans; reader 1 seeks back and walks again — and still gets
+    its row; reader 2 does not -/
+example :
+    let evs : List (Ev WOp Qry) :=
+      [.wbegin, .wop (.put 1 10 3 [0]), .wop (.put 2 20 1 []), .wcommit,
+       .rbegin 1, .rread 1 (.cWalk 5 10),
+       .wbegin, .wop (.put 1 11 3 [0]), .wcommit,
+       .rbegin 2, .rread 2 (.cWalk 5 11), .rread 2 (.cWalk 5 10),
+       .rread 1 (.cSeek 5 10 0), .rread 1 (.cSeek 5 10 2)]
+    ((run applyOp evalQ (St.init [] : St Ver WOp Qry (List Nat)) evs).log.map fun o => (o.reader, o.tag, o.a)) =
+      [(1, 1, []), (1, 1, [1]), (2, 2, []), (2, 2, [1]), (1, 1, [1])] := by decide
+
+/-- **No pooled object outlives its release** (a proof about the table, as good as extract/globals_fields.go): every
+    `Put` into a sync.Pool of the four packages gives back a local that the same function took from the pool, that is neither
+    returned, stored, captured nor sent, at the end of the function (deferred) or without touching it afterwards; and there is
+    no hand-made free list (package-level slice-of-pointers / channel variable written outside init).  A Put of a receiver, a
+    field or a parameter — an object somebody else still points at, like a row cursor released by the scanner that was handed
+    out as a cursor — is rejected. -/
+theorem no_pooled_object_outlives_release :
+    noPooledObjectOutlivesRelease Generated.poolPuts Generated.freeLists = true := by decide
+
+theorem pool_table_meaning (puts : List PoolPut) (frees : List FreeList) (h : noPooledObjectOutlivesRelease puts frees = true) :
+    frees = [] ∧ ∀ p ∈ puts, p.argKind = .localFromGet ∧ p.escapes = "" ∧ (p.deferred = true ∨ p.usedAfter = false) := by
+  simp only [noPooledObjectOutlivesRelease, Bool.and_eq_true, List.all_eq_true, List.isEmpty_iff] at h
+  refine ⟨h.2, fun p hp => ?_⟩
+  have := h.1 p hp
+  simp only [PoolPut.ok, Bool.and_eq_true, beq_iff_eq, Bool.or_eq_true, Bool.not_eq_true'] at this
+  exact ⟨this.1.1, this.1.2, this.2⟩
+
+/-- the table is not blind: it sees the two pools of zitiql and their deferred Puts in `parse` -/
+theorem pool_table_anchors :
+    (hasPool Generated.pools "zitiql" "lexerPool" && hasPool Generated.pools "zitiql" "parserPool" &&
+     hasPoolPut Generated.poolPuts "zitiql" "lexerPool" "parse" && hasPoolPut Generated.poolPuts "zitiql" "parserPool" "parse") = true := by
+  decide
+
+/-- **Read APIs do not write the state of shared objects** (a proof about the table): no method that is a read API by name
+    (Is… Get… Find… Query… Iterate… Eval… Validate is reached through VisitSymbol / IsPublicSymbol …) or reachable from one
+    writes — assignment, map store, element write, append, delete, ++ — a field of its receiver when the receiver type is a
+    shared long-lived one (BaseStore, Indexer, the symbol, index, constraint and link-collection types, objectz.ObjectStore and
+    its symbols), except under a lock. -/
+theorem read_apis_do_not_write_receiver_state : readApisDoNotWriteReceiverState Generated.fieldWrites = true := by decide
+
+theorem receiver_write_table_meaning (ws : List FieldWrite) (h : readApisDoNotWriteReceiverState ws = true) :
+    ∀ w ∈ ws, w.api = .read → w.shared = true → w.underLock = false →
+      ∃ e ∈ reviewedFieldWrites, e.1 = w.pkg ∧ e.2.1 = w.typ ∧ e.2.2.1 = w.method ∧ e.2.2.2.1 = w.field := by
+  intro w hw ha hs hl
+  simp only [readApisDoNotWriteReceiverState, List.all_eq_true] at h
+  have := h w hw
+  simp only [FieldWrite.ok, ha, hs, hl, bne_self_eq_false, Bool.not_true, Bool.false_or, List.any_eq_true, Bool.and_eq_true,
+    beq_iff_eq] at this
+  obtain ⟨e, he, h1⟩ := this
+  exact ⟨e, he, h1.1.1.1, h1.1.1.2, h1.1.2, h1.2⟩
+
+/-- the table is not blind: it sees the registration-time writers of the maps the read APIs consult (write APIs, shared
+    types), and per-scan state written on the read path (the row cursor's symbol cache: read, not shared) -/
+theorem receiver_write_table_anchors :
+    (hasFieldWrite Generated.fieldWrites "boltz" "BaseStore" "addSymbol" "publicSymbols[]" .elem .write true &&
+     hasFieldWrite Generated.fieldWrites "boltz" "BaseStore" "MakeSymbolPublic" "publicSymbols[]" .elem .write true &&
+     hasFieldWrite Generated.fieldWrites "boltz" "BaseStore" "AddMapSymbol" "mapSymbols[]" .elem .write true &&
+     hasFieldWrite Generated.fieldWrites "objectz" "ObjectStore" "AddStringSymbol" "symbols[]" .elem .write true &&
+     hasFieldWrite Generated.fieldWrites "boltz" "rowCursorImpl" "getSymbol" "symbolCache[]" .elem .read false) = true := by decide
+
 /-! ## Non-vacuity -/
+
+/-- the table shape of "IsPublicSymbol memoises accepted element names in a map of the store" is rejected -/
+example : readApisDoNotWriteReceiverState
+    [{ pkg := "boltz", typ := "BaseStore", method := "IsPublicSymbol", field := "publicElements[]", how := FieldWriteHow.elem,
+       api := ApiKind.read, shared := true, underLock := false }] = false := by decide
+/-- … the same write under the store's lock, or in a per-scan object, is accepted -/
+example : readApisDoNotWriteReceiverState
+    [{ pkg := "boltz", typ := "BaseStore", method := "IsPublicSymbol", field := "publicElements[]", how := FieldWriteHow.elem,
+       api := ApiKind.read, shared := true, underLock := true },
+     { pkg := "boltz", typ := "rowCursorImpl", method := "getSymbol", field := "symbolCache[]", how := FieldWriteHow.elem,
+       api := ApiKind.read, shared := false, underLock := false }] = true := by decide
+
+/-- the table shape of "the row cursor releases itself into a pool; the scanner handed out as a cursor calls it" is rejected -/
+example : noPooledObjectOutlivesRelease
+    [{ pkg := "boltz", pool := "rowCursorPool", func := "rowCursorImpl.release", arg := "rs", argKind := PoolArgKind.receiver,
+       deferred := false, usedAfter := false, escapes := "" }] [] = false := by decide
+example : noPooledObjectOutlivesRelease
+    [{ pkg := "zitiql", pool := "parserPool", func := "parse", arg := "p", argKind := PoolArgKind.localFromGet,
+       deferred := false, usedAfter := true, escapes := "" }] [] = false := by decide
 
 /-- an interleaving in which a reader that began before a commit keeps answering from the old
     version while a later reader sees the new one, and an aborted transaction is seen by nobody -/
